@@ -145,7 +145,7 @@ class ObsolescenceChained(Obsolescence):
     (x.filter(...).sort(...).modify(...)); the original is still an ancestor and must be marked"""
     def __init__(self, depth, methods=None):
         Obsolescence.__init__(self, depth, methods)
-        self.name = f"C17.obsolescence_chained.d{depth}"
+        self.name = f"C17.obsolescence_chained.d{depth}" + (f".m{len(methods)}" if methods else "")
         self.bounds = dict(self.bounds, released="before the edit, every list except the original and the edited one is unreferenced and collected")
     def build(self, ctx):
         inp = Obsolescence.build(self, ctx)
